@@ -55,7 +55,8 @@ def run(ctx):
                          "(proper / improper priors), NadarayaWatsonRegressor, SklearnRegressor and SklearnNormalRegressor around LinearRegression, "
                          "BayesianRidge, GaussianProcessRegressor and an estimator that needs k samples; training sets with 0, 1, 2 and more labels; "
                          "non-trivial = at least one labeled sample and a finite predictive std; distinct = (regressor, data, seed)")
-    ctx.trusted += ["scipy.stats.t / norm and the kernel sums are external (oracles)", "PrimFloat primitives for the bit-exact evaluation of the conjugate update"]
+    ctx.trusted += ["scipy.stats.t / norm and the kernel sums are external (oracles)", "PrimFloat primitives for the bit-exact evaluation of the conjugate update",
+                    "numpy evaluates array ** 2 as the exact product x*x (the model's fmul d d); update parameters are arrays in every call the library makes"]
     ctx.coq_props()
     rng = ctx.rng("c15")
     terms = []
@@ -64,7 +65,10 @@ def run(ctx):
         p2 = (float(rng.random() * 10), float(rng.random() * 10), float(rng.normal() * 3), float(rng.random() * 2))
         if p1[0] + p2[0] == 0 or p1[1] + p2[1] == 0:
             continue
-        out = _combine_params(p1, p2)
+        # as in predict_target_distribution: the prior is a tuple of Python floats, the update parameters are numpy
+        # arrays (one entry per query sample); on arrays `** 2` is numpy's exact square x*x, whereas on Python floats
+        # it would be C pow(x, 2.0), which is not always correctly rounded (164 of 200000 draws differ by one ulp)
+        out = tuple(float(np.asarray(v).ravel()[0]) for v in _combine_params(p1, tuple(np.array([v]) for v in p2)))
         terms.append(f"({tup(p1)}, {tup(p2)}, {tup(out)})")
         ctx.count("_combine_params")
     bad, err = ctx.coq_eval_cases("nix", IMPORTS, "check_nix", terms, chunk=1500)
